@@ -475,6 +475,10 @@ func (pk *Packet) ConnectValidate() Code {
 		return ErrProtocolViolationPasswordNoFlag // [MQTT-3.1.2-18]
 	}
 
+	if pk.ProtocolVersion < 5 && pk.Connect.PasswordFlag && !pk.Connect.UsernameFlag {
+		return ErrProtocolViolation // [v3 MQTT-3.1.2-22] mqtt v5 permits a password without a username
+	}
+
 	if len(pk.Connect.ClientIdentifier) > math.MaxUint16 {
 		return ErrClientIdentifierNotValid
 	}
@@ -486,6 +490,10 @@ func (pk *Packet) ConnectValidate() Code {
 
 		if pk.Connect.WillQos > 2 {
 			return ErrProtocolViolationQosOutOfRange // [MQTT-3.1.2-12]
+		}
+
+		if strings.ContainsAny(pk.Connect.WillTopic, "+#") {
+			return ErrTopicNameInvalid // a will topic is a topic name and must not contain wildcards [MQTT-4.7.1-1]
 		}
 	}
 
